@@ -253,7 +253,8 @@ PROPS["C01"] = {
                   "the same Go type, share an object only between spellings of one type, and are complete; naming of anonymous types. On the "
                   "full model (Lemmas/WalkInv.lean, used by C06/C11) every step of walkType, the declaration and package scans and the loaders "
                   "keeps the universe closed (every reference has a kind) and canonical (every reference is the object registered under its "
-                  "name). PARTIAL: that the attributes recorded for an object are those of its Go node (the 'describes' half of the walk "
+                  "name), and after the scan of a requested package every non-generic named type of its scope is registered under its own "
+                  "name with a kind, whatever was loaded before. PARTIAL: that the attributes recorded for an object are those of its Go node (the 'describes' half of the walk "
                   "invariant) is proved on the reduced prototype model only (proto/Walk2Inv.lean); on the full model it is carried by the "
                   "correspondence and the oracle. Complete canonical universe dumps of the real v1 and v2 loaders are compared with "
                   "the model on generated programs, and an oracle walks go/types independently and compares every reported attribute.",
